@@ -1015,7 +1015,21 @@ func flashMain(s *simrt.Sim, info *harness.RunInfo) {
 	s.SetPreempt(0)
 	s.SetPoolDrop(poolDrop)
 
-	app := fiber.New()
+	// the application's error handler: the default one, a custom one, or a custom one that itself fails
+	// (fault: the framework then answers 500 on its own) - the consumed cookie must be expired regardless
+	ehMode := simrt.PickS(s, 0, 0, 1, 2)
+	fcfg := fiber.Config{}
+	if ehMode > 0 {
+		fcfg.ErrorHandler = func(c fiber.Ctx, err error) error {
+			if ehMode == 2 {
+				s.Count("fault_error_handler_failed")
+				return errors.New("the error page could not be rendered")
+			}
+			return fiber.DefaultErrorHandler(c, err)
+		}
+	}
+	s.Logf("cfg errorHandler=%d", ehMode)
+	app := fiber.New(fcfg)
 	r.app = app
 	record := func(c fiber.Ctx, op *flashOp) {
 		op.ran = true
